@@ -403,6 +403,26 @@ def _gen_smallchunk(r):
                ml * float(r.choice([1.0001, 1.05, 1.2, 1.5, 2.0])), int(r.choice([0, 0, 1])))
 
 
+def _gen_threshold(r):
+    """pairs whose separation is ml*(1 +- eps), eps from 1e-7 to 3e-3, on a meridian or on the equator (where the
+    separation is exactly the coordinate difference): just inside must match, just outside must not - for match lengths
+    of degrees, where flat / chord approximations of the separation differ from the arc by 1e-4..1e-2 relative"""
+    ml = float(r.choice([0.5, 2.0, 3.0, 5.0, 8.0, 15.0])) * r.uniform(0.8, 1.25)
+    n = int(r.integers(2, 10))
+    ra1, dec1, ra2, dec2 = [], [], [], []
+    for _ in range(n):
+        eps = float(r.choice([1e-7, 1e-6, 1e-5, 1e-4, 3e-4, 1e-3, 3e-3])) * float(r.choice([1, -1]))
+        step = ml * (1 + eps)
+        if r.random() < 0.6:
+            a, d = r.uniform(0, 360), r.uniform(-75, 75 - step)
+            ra1.append(a); dec1.append(d); ra2.append(a); dec2.append(d + step)
+        else:
+            a = r.uniform(0, 360)
+            ra1.append(a); dec1.append(0.0); ra2.append((a + step) % 360.0); dec2.append(0.0)
+    return _mk('threshold', ra1, dec1, ra2, dec2, ml, None if r.random() < 0.6 else ml * float(r.choice([4.0, 6.0])),
+               int(r.choice([0, 0, 1, 2])))
+
+
 def _gen_ties(r):
     """duplicated points: equal separations, the greedy result depends on the (unspecified) order of ties"""
     c = _gen_random(r, 'cluster')
@@ -431,7 +451,7 @@ def _cases(ctx):
     r = np.random.default_rng(ctx.rng.getrandbits(64))
     n = ctx.n(1500, 40000)
     mix = (['cluster'] * 5 + ['seam'] * 4 + ['polar80'] * 3 + ['polar87'] * 3 + ['allsky'] * 2 + ['lattice'] * 4 +
-           ['d5'] * 3 + ['ties'] * 2 + ['polar-smallchunk'] * 3 + ['topedge'] * 2)
+           ['d5'] * 3 + ['ties'] * 2 + ['polar-smallchunk'] * 3 + ['topedge'] * 2 + ['threshold'] * 2)
     out = []
     for _ in range(n):
         k = mix[int(r.integers(len(mix)))]
@@ -443,6 +463,8 @@ def _cases(ctx):
             c = _gen_topedge(r)
         elif k == 'ties':
             c = _gen_ties(r)
+        elif k == 'threshold':
+            c = _gen_threshold(r)
         elif k == 'polar-smallchunk':
             c = _gen_smallchunk(r)
         else:
